@@ -74,7 +74,12 @@ def run_case(case, chooser):
           "pathio": dict(backend="pathio"), "async": dict(backend="async"),
           # a custom backend as the PathIO API allows it: written data reaches the file when it is closed (buffered
           # file object) and close() itself suspends (an executor job the explorer completes when it chooses)
-          "buffered": dict(backend="memory")}[case["backend"]]
+          "buffered": dict(backend="memory"),
+          # read() returns fewer bytes than asked for although more are there (legal: "read some data")
+          "shortread": dict(backend="memory")}[case["backend"]]
+    if case["backend"] == "shortread":
+        bk["spy"] = backends.SpyControl()
+        bk["spy"].read_cap = 2
     if case["backend"] == "buffered":
         bk["spy"] = backends.SpyControl()
         bk["spy"].buffered = True
@@ -265,6 +270,11 @@ def grid(tier):
                 for rs in (1, max(bb - 1, 1), bb + 1, 8192):
                     items.append(({"op": "RETR", "target": "old", "n": len(OLD), "k": k, "b": b, "chunks": [],
                                    "readsize": rs, "backend": backend}, 0, [], None))
+    for b in (3, 5, 8192):
+        for k in (0, 4, len(OLD)):
+            for rs in (1, 4, 8192):
+                items.append(({"op": "RETR", "target": "old", "n": len(OLD), "k": k, "b": b, "chunks": [],
+                               "readsize": rs, "backend": "shortread"}, 0, [], None))
     # byte families, both passive modes, throttles
     for fam, data in FAMILIES.items():
         for op, target in (("STOR", "new"), ("APPE", "old")):
